@@ -67,7 +67,7 @@ func (p c06) Gen(seed uint64, tier string, idx int) (*Case, bool) {
 	}
 	idx -= len(cur)
 	if idx < len(gen.ArithCurated) {
-		return &Case{Kind: "eval", Src: gen.ArithCurated[idx], Vars: [][2]string{{"z", "5"}}, Note: "curated-eval", DFS: dfs}, true
+		return &Case{Kind: "eval", Src: gen.ArithCurated[idx], Vars: [][2]string{{"z", "5"}}, Note: "curated-eval", DFS: dfs, Bystander: idx%2 == 1}, true
 	}
 	idx -= len(gen.ArithCurated)
 	if idx < len(c06Expand) {
@@ -167,6 +167,12 @@ func (c06) build(src *gen.Source) *Case {
 			c.Reader.DataErr = src.Chance(1, 2)
 		}
 		c.Note = "bufio-reader"
+		if c.Reader.FaultAt < 0 && src.Chance(1, 3) {
+			// the caller's own *bufio.Reader as the source
+			c.Reader = gosim.ReaderPlan{Kind: "bufio.Reader", FaultAt: -1}
+			c.Note = "caller-owned-bufio-reader"
+		}
+		c.Bystander = true
 	case class == 12:
 		// two independent callers at the same time (here-documents make the lexer use the printer)
 		o.HDBias = true
@@ -181,8 +187,9 @@ func (c06) build(src *gen.Source) *Case {
 	case class == 9:
 		c = &Case{Kind: "eval", Src: gen.ArithExpr(src, 3), Note: "eval"}
 		c.Vars = [][2]string{{"y", src.Pick([]string{"2", "08", "", "abc", "0x10"})}}
+		c.Bystander = src.Chance(1, 2)
 	case class == 10:
-		c = &Case{Kind: "expand", Note: "expand"}
+		c = &Case{Kind: "expand", Note: "expand", Bystander: src.Chance(1, 2)}
 		n := 1 + src.Intn(3)
 		for i := 0; i < n; i++ {
 			switch src.Intn(4) {
@@ -258,6 +265,22 @@ func (c06) Judge(c *Case, obs []*Obs) []Finding {
 					add(Finding{Class: "concurrent-callers-interfere", Obs: []int{i},
 						Detail: fmt.Sprintf("caller %d, running at the same time as an independent call, got a result that differs from the same call made alone: %s", k, firstDiff(solo[k], o.Parts[k]))})
 				}
+			}
+		}
+	}
+	if (c.Kind == "eval" || c.Kind == "expand") && c.Bystander {
+		for i, o := range obs {
+			if solo, ok := o.Extra["solo"]; ok && solo != o.Dump {
+				add(Finding{Class: "hidden-state-between-calls", Obs: []int{i},
+					Detail: fmt.Sprintf("the same call with the same store gives another result after unrelated earlier calls on that environment: %s", firstDiff(solo, o.Dump))})
+			}
+		}
+	}
+	if c.Kind == "parse" && c.Bystander {
+		for i, o := range obs {
+			if n := len(o.PosAtReturn); n > 0 && o.PosAfterDrain != o.PosAtReturn[n-1] {
+				add(Finding{Class: "reader-touched-after-return", Obs: []int{i},
+					Detail: fmt.Sprintf("the source reader stood at %d when the call returned and at %d after an unrelated later call %s", o.PosAtReturn[n-1], o.PosAfterDrain, o.Extra["caller-reader-rest"])})
 			}
 		}
 	}
